@@ -2,6 +2,7 @@ package verifh
 
 import (
 	"fmt"
+	"strings"
 	"testing"
 	"time"
 	"unsafe"
@@ -353,5 +354,94 @@ func TestC02_Sessions(t *testing.T) {
 			c.Steps = append(c.Steps, st)
 		}
 		return c
+	})
+}
+
+// ---------------------------------------------------------------------------
+// Concatenation aliases. Two different (secret, counter) pairs whose TEXTS, written one after the other, are the same
+// string: base32 uses the digits 2..7, so the secret "ABCDEFG" + "22" with counter 7 and the secret "ABCDEFG" with counter
+// 227 both spell "ABCDEFG227". A memo, a coalescing key or a log-derived index that joins its arguments without a separator
+// or a length takes one pair for the other. Independent draws never produce such a pair.
+type c01AliasCase struct {
+	Long   string `json:"long_secret"` // canonical base32, a multiple of 8 characters, ending in K digits 2..7
+	K      int    `json:"k"`           // the short secret is Long without its last K characters
+	Rest   uint64 `json:"rest"`        // counter used with the long secret; the short secret's counter is <last K digits><Rest>
+	Digits int    `json:"digits"`
+	Algo   int    `json:"algo"`
+	Order  int    `json:"order"` // 0: short first, 1: long first
+}
+
+func checkC01Alias(c c01AliasCase) verdict {
+	short := c.Long[:len(c.Long)-c.K]
+	kl, ok1 := ref.B32DecodeLoose(c.Long)
+	ks, ok2 := ref.B32DecodeLoose(short)
+	if !ok1 || !ok2 || ref.B32(kl) != c.Long || ref.B32(ks) != short {
+		return ok(false, "harness-case-not-canonical")
+	}
+	var cs uint64
+	if _, err := fmt.Sscan(c.Long[len(c.Long)-c.K:]+fmt.Sprint(c.Rest), &cs); err != nil {
+		return ok(false, "counter-too-long")
+	}
+	type call struct {
+		text string
+		key  []byte
+		ctr  uint64
+	}
+	calls := []call{{short, ks, cs}, {c.Long, kl, c.Rest}}
+	if c.Order == 1 {
+		calls[0], calls[1] = calls[1], calls[0]
+	}
+	p := &otp.Param{Digits: otp.Digits(c.Digits), Algorithm: otp.Algorithm(c.Algo), Period: 30}
+	labels := []string{fmt.Sprintf("k=%d", c.K), fmt.Sprintf("order=%d", c.Order)}
+	for round := 0; round < 2; round++ {
+		for _, cl := range calls {
+			want := ref.MustHOTP(cl.key, cl.ctr, c.Digits, c.Algo)
+			if got, err := otp.GenerateHOTP(cl.text, cl.ctr, p); err != nil || got != want {
+				return bad(true, labels, "GenerateHOTP(%q, %d) = %q, %v; RFC value %q — after the pair (%q, %d), whose texts concatenate to the same string", cl.text, cl.ctr, got, err, want, calls[0].text, calls[0].ctr)
+			}
+			if okk, err := otp.ValidateHOTP(cl.text, want, cl.ctr, p); !okk || err != nil {
+				return bad(true, labels, "ValidateHOTP(%q, its own code %q, %d) = %v, %v — after the pair (%q, %d), whose texts concatenate to the same string", cl.text, want, cl.ctr, okk, err, calls[0].text, calls[0].ctr)
+			}
+			if cl.ctr < 1<<40 {
+				tm := time.Unix(int64(cl.ctr)*30+7, 0)
+				if got, err := otp.GenerateTOTP(cl.text, tm, p); err != nil || got != want {
+					return bad(true, labels, "GenerateTOTP(%q, step %d) = %q, %v; RFC value %q — after a pair whose texts concatenate to the same string", cl.text, cl.ctr, got, err, want)
+				}
+				if okk, err := otp.ValidateTOTP(cl.text, want, tm, p); !okk || err != nil {
+					return bad(true, labels, "ValidateTOTP(%q, its own code, step %d) = %v, %v — after a pair whose texts concatenate to the same string", cl.text, cl.ctr, okk, err)
+				}
+			}
+		}
+	}
+	return ok(true, labels...)
+}
+
+var c01Alias = newPart("C01", "concatenation-aliases",
+	"rapid: pairs (short secret, counter d1..dk r) and (short secret + d1..dk, counter r) — the digits 2..7 are base32 symbols, so both pairs spell the same text when secret and decimal counter are written one after the other; both secrets canonical base32 (8..64 characters), k in {1,3,4,6}; each pair goes through GenerateHOTP, ValidateHOTP, GenerateTOTP, ValidateTOTP twice, in both orders, and every answer is the reference's for THAT pair; every case non-trivial",
+	checkC01Alias)
+
+func TestC01_ConcatenationAliases(t *testing.T) {
+	c01Alias.rapid(t, ev.Pick(3_000, 60_000), func(t *rapid.T) c01AliasCase {
+		k := rapid.SampledFrom([]int{1, 3, 4, 6}).Draw(t, "k")
+		n := 8 * rapid.IntRange(1, 8).Draw(t, "quanta")
+		const alphabet = "ABCDEFGHIJKLMNOPQRSTUVWXYZ234567"
+		b := make([]byte, n)
+		for i := range b {
+			b[i] = alphabet[rapid.IntRange(0, 31).Draw(t, "sym")]
+		}
+		for i := n - k; i < n; i++ {
+			b[i] = "234567"[rapid.IntRange(0, 5).Draw(t, "dig")]
+		}
+		// the short secret (n-k characters) is canonical when the unused low bits of its last symbol are zero
+		spare := map[int]uint{7: 3, 5: 1, 4: 4, 2: 2}[(n-k)%8]
+		if n-k > 0 {
+			v := strings.IndexByte(alphabet, b[n-k-1])
+			b[n-k-1] = alphabet[(v>>spare)<<spare]
+		}
+		rest := rapid.Uint64Range(0, 99999).Draw(t, "rest")
+		if rapid.Bool().Draw(t, "restSmall") {
+			rest = rapid.Uint64Range(0, 9).Draw(t, "restDigit")
+		}
+		return c01AliasCase{Long: string(b), K: k, Rest: rest, Digits: rapid.SampledFrom([]int{6, 6, 8, 10}).Draw(t, "digits"), Algo: rapid.IntRange(0, 2).Draw(t, "algo"), Order: rapid.IntRange(0, 1).Draw(t, "order")}
 	})
 }
